@@ -232,7 +232,7 @@ func (e *recEngine) GetFieldIndexer() client.FieldIndexer { return e.c.(client.F
 
 var crdGK = schema.GroupKind{Group: "apiextensions.k8s.io", Kind: "CustomResourceDefinition"}
 
-func h2(r *explore.Run, rep *report.R, sc string, depth int, foreignCRD bool) {
+func h2(r *explore.Run, rep *report.R, sc string, depth int, foreignCRD bool, start string) {
 	xrh.BeginExecution(1)
 	s := xrh.NewStore()
 	xrd := xrh.XRD()
@@ -248,8 +248,12 @@ func h2(r *explore.Run, rep *report.R, sc string, depth int, foreignCRD bool) {
 	o := apiextensionscontroller.Options{Options: controller.Options{Logger: logging.NewNopLogger(), Features: &feature.Flags{}}}
 	drec := definition.NewReconciler(ca, definition.WithControllerEngine(eng), definition.WithOptions(o))
 	orec := offered.NewReconciler(ca, offered.WithControllerEngine(eng), offered.WithOptions(o))
-	// The API server establishes CRDs and, when a CRD goes away, stops
-	// serving the kind (its instances go with it).
+	// The API server establishes CRDs. A CRD whose deletion is requested gets
+	// the customresourcecleanup finalizer and stays (terminating) until the
+	// API server's CRD finalizer has deleted every instance and seen them go
+	// (event "crd-cleanup"); then the kind is no longer served.
+	const cleanupFinalizer = "customresourcecleanup.apiextensions.k8s.io"
+	s.DeleteFinalizers[crdGK] = []string{cleanupFinalizer}
 	s.OnWrite = append(s.OnWrite, func(rec *simkube.WriteRecord) {
 		if rec.Call.Key.GK() != crdGK {
 			return
@@ -258,22 +262,51 @@ func h2(r *explore.Run, rep *report.R, sc string, depth int, foreignCRD bool) {
 		if !ours {
 			return
 		}
-		if rec.Deleted || rec.After == nil {
-			// Monitors for the CRD deletion.
-			if rec.Call.Client == "xrd" {
-				if n := len(s.All(gk)); n > 0 {
-					r.FailLater("crd/deleted-with-instances/"+gk.Kind, "%s deleted the CRD while %d instance(s) of %s exist", rec.Call, n, gk.Kind)
-				}
-				if eng.running[ctrlOf[rec.Call.Key.Name]] {
-					r.FailLater("crd/deleted-before-controller-stopped/"+gk.Kind, "%s deleted the CRD while controller %s is still running", rec.Call, ctrlOf[rec.Call.Key.Name])
-				}
+		requested := rec.Deleted || (rec.Before != nil && rec.Before.GetDeletionTimestamp() == nil && rec.After != nil && rec.After.GetDeletionTimestamp() != nil)
+		// The property speaks about the teardown of a deleted XRD. (While the
+		// XRD lives, a CRD someone else deleted is simply re-applied by the
+		// definition controller; that is not this property's subject.)
+		xo := s.Peek(xrdKey)
+		xrdDeleting := xo == nil || xo.GetDeletionTimestamp() != nil
+		if requested && rec.Call.Client == "xrd" && xrdDeleting {
+			// Monitors for the CRD deletion by the XRD controllers.
+			if n := len(s.All(gk)); n > 0 {
+				r.FailLater("crd/deleted-with-instances/"+gk.Kind, "%s deleted the CRD while %d instance(s) of %s exist", rec.Call, n, gk.Kind)
 			}
+			if eng.running[ctrlOf[rec.Call.Key.Name]] {
+				r.FailLater("crd/deleted-before-controller-stopped/"+gk.Kind, "%s deleted the CRD while controller %s is still running", rec.Call, ctrlOf[rec.Call.Key.Name])
+			}
+		}
+		if rec.Deleted {
 			s.NoMatch[gk] = true
 			for _, inst := range s.All(gk) {
 				s.Remove(simkube.KeyOf(inst))
 			}
 		}
 	})
+	// crdCleanup is one pass of the API server's CRD finalizer over the
+	// terminating CRDs: delete the instances (their finalizers are honoured);
+	// once none is left, release the CRD.
+	crdCleanup := func() {
+		for _, n := range []string{xrCRDName, claimCRDName} {
+			k := simkube.ObjKey{Group: crdGK.Group, Kind: crdGK.Kind, Name: n}
+			crd := s.Peek(k)
+			if crd == nil || crd.GetDeletionTimestamp() == nil || !hasFinalizer(crd, cleanupFinalizer) {
+				continue
+			}
+			gk := kindOf[n]
+			for _, inst := range s.All(gk) {
+				_ = s.Client("apiserver").Delete(ctxBG, inst)
+			}
+			if len(s.All(gk)) > 0 {
+				continue
+			}
+			dropFinalizers(s, k, func(f string) bool { return f != cleanupFinalizer })
+			if s.Peek(k) == nil {
+				s.NoMatch[gk] = true
+			}
+		}
+	}
 	establish := func() {
 		for n := range kindOf {
 			k := simkube.ObjKey{Group: crdGK.Group, Kind: crdGK.Kind, Name: n}
@@ -343,9 +376,22 @@ func h2(r *explore.Run, rep *report.R, sc string, depth int, foreignCRD bool) {
 			}
 		}
 	})
+	// Non-initial start states, reached fault free with the real code.
+	switch start {
+	case "xrd-deleting":
+		_ = s.Client("user").Delete(ctxBG, xrd.DeepCopy())
+		xrh.Reconcile(drec, nnXRD)
+		xrh.Reconcile(orec, nnXRD)
+		r.Raise()
+	case "composite-crd-deleting":
+		if crd := s.Peek(simkube.ObjKey{Group: crdGK.Group, Kind: crdGK.Kind, Name: xrCRDName}); crd != nil {
+			_ = s.Client("user").Delete(ctxBG, crd)
+		}
+		crdCleanup()
+	}
 	inj := &xrh.FaultInjector{Run: r, Filter: func(c simkube.Call) bool { return c.Client == "xrd" }}
 	s.Inj = inj
-	events := []string{"definition-reconcile", "offered-reconcile", "xr-reconcile", "claim-reconcile", "user-deletes-xrd", "user-deletes-claim", "gc-step"}
+	events := []string{"definition-reconcile", "offered-reconcile", "xr-reconcile", "claim-reconcile", "user-deletes-xrd", "user-deletes-claim", "gc-step", "crd-cleanup", "third-party-deletes-composite-crd"}
 	var trail []string
 	for step := 0; step < depth; step++ {
 		r.SeenRank(report.Hash(s.Canonical(), eng.running, s.NoMatch), depth-step)
@@ -375,6 +421,12 @@ func h2(r *explore.Run, rep *report.R, sc string, depth int, foreignCRD bool) {
 			}
 		case "user-deletes-xrd":
 			_ = s.Client("user").Delete(ctxBG, xrd.DeepCopy())
+		case "crd-cleanup":
+			crdCleanup()
+		case "third-party-deletes-composite-crd":
+			if crd := s.Peek(simkube.ObjKey{Group: crdGK.Group, Kind: crdGK.Kind, Name: xrCRDName}); crd != nil {
+				_ = s.Client("user").Delete(ctxBG, crd)
+			}
 		case "user-deletes-claim":
 			if !s.NoMatch[xrh.ClaimGVK.GroupKind()] {
 				_ = s.Client("user").Delete(ctxBG, xrh.Claim("ns", "c1"))
@@ -549,7 +601,7 @@ var _ = reference.Claim{}
 func TestCheck(t *testing.T) {
 	rep := report.New("C08", "model_checking")
 	rep.Meta(
-		"Four closed sub-systems, each searched by depth-bounded DFS with state-hash pruning over event sequences; every event is a transition executed by the real code. H1 (claim + XR + a dependent with a provider finalizer; Background and Foreground policy; both syncers): events {claim reconcile with an API fault or crash at any call, XR reconcile, user deletes the claim, user deletes the XR, one garbage-collector step (which one is a choice), the provider finalizes the dependent}. H2 (XRD with the real definition and offered reconcilers and a recording engine, one bound claim + XR whose controllers only run while the engine says so; composite CRD ours or foreign): events {definition / offered reconcile with a fault at any call, XR / claim reconcile, user deletes the XRD / the claim, gc step}; the API-server side establishes CRDs and removes the instances of a deleted CRD. H3 (package revision + dependency Lock, real revision reconciler and PackageDependencyManager): {reconcile with an API error at any call, user deletes the revision, deactivate, gc step}. H4 (composed Usage + using + used resource, real usage reconciler): {reconcile with fault/crash, delete usage / using / used, gc step}. Monitors at every write: claim finalizer removed only after an XR delete was issued (Foreground: XR gone); CRD deleted only with no instances and a stopped controller; controller stopped only with no instances (when the CRD is ours); XRD finalizers removed only when the CRD is gone or never ours; revision finalized only when out of the Lock; composed Usage finalized only when the using resource is gone.",
+		"Four closed sub-systems, each searched by depth-bounded DFS with state-hash pruning over event sequences; every event is a transition executed by the real code. H1 (claim + XR + a dependent with a provider finalizer; Background and Foreground policy; both syncers): events {claim reconcile with an API fault or crash at any call, XR reconcile, user deletes the claim, user deletes the XR, one garbage-collector step (which one is a choice), the provider finalizes the dependent}. H2 (XRD with the real definition and offered reconcilers and a recording engine, one bound claim + XR whose controllers only run while the engine says so; composite CRD ours or foreign): events {definition / offered reconcile with a fault at any call, XR / claim reconcile, user deletes the XRD / the claim, a third party deletes the composite CRD, gc step, crd-cleanup}; the API-server side establishes CRDs, and a CRD whose deletion was requested carries the customresourcecleanup finalizer and stays terminating until the crd-cleanup event (the API server's CRD finalizer: delete the instances, release the CRD once none is left) has seen every instance go; start states: steady, XRD deletion already requested and reconciled once, composite CRD deleted by a third party. H3 (package revision + dependency Lock, real revision reconciler and PackageDependencyManager): {reconcile with an API error at any call, user deletes the revision, deactivate, gc step}. H4 (composed Usage + using + used resource, real usage reconciler): {reconcile with fault/crash, delete usage / using / used, gc step}. Monitors at every write: claim finalizer removed only after an XR delete was issued (Foreground: XR gone); CRD deleted only with no instances and a stopped controller; controller stopped only with no instances (when the CRD is ours); XRD finalizers removed only when the CRD is gone or never ours; revision finalized only when out of the Lock; composed Usage finalized only when the using resource is gone.",
 		[]string{"simkube models the API server; the Kubernetes garbage collector acts only through explicit gc-step events", "a dynamic controller reconciles its instances only while the (recording) engine reports it running", "reconciles are atomic events except for the one injected fault / crash"},
 		[]string{"simkube", "fake controller engine (records Start/Stop)"},
 	)
@@ -572,8 +624,14 @@ func TestCheck(t *testing.T) {
 	}
 	for _, foreign := range []bool{false, true} {
 		foreign := foreign
-		name := fmt.Sprintf("H2/foreign-crd=%v", foreign)
-		add(name, func(r *explore.Run) { h2(r, rep, name, depth, foreign) })
+		for _, start := range []string{"", "xrd-deleting", "composite-crd-deleting"} {
+			start := start
+			name := fmt.Sprintf("H2/foreign-crd=%v", foreign)
+			if start != "" {
+				name += "/start=" + start
+			}
+			add(name, func(r *explore.Run) { h2(r, rep, name, depth, foreign, start) })
+		}
 	}
 	add("H3/revision-lock", func(r *explore.Run) { h3(r, rep, "H3/revision-lock", depth) })
 	add("H4/composed-usage", func(r *explore.Run) { h4(r, rep, "H4/composed-usage", depth) })
